@@ -102,14 +102,28 @@ structure Space where
   typ : Nat
   deriving DecidableEq, Repr
 
-/-- space.go:25 `Acquire` -/
-def acquire (mm : Mmap) (off min max len : Nat) : Nat × Option Space :=
+/-- `uintptr(len)` for a Go `int` (two's complement: a negative length becomes a huge unsigned one) -/
+def ulen (r : Int) : Nat := (r % 18446744073709551616).toNat
+
+/-- `acquireFromHolder(len int)` on the whole `int` domain: the optional argument check of holder.go comes first (it
+    touches nothing shared), then the uintptr arithmetic on `uintptr(len)` -/
+def acquireFromHolderI (off min max : Nat) (r : Int) : Nat × Res :=
+  if guardFails r then (off, .err) else acquireFromHolder off min max (ulen r)
+
+/-- space.go:25 `Acquire(spaceLen int)`.  The form of the Go function (mmap first, then the reserve, error of the reserve
+    passed on) is matched literally by tools/genstub on every run. -/
+def acquire (mm : Mmap) (off min max : Nat) (r : Int) : Nat × Option Space :=
   match mm with
-  | .fresh a => (off, some ⟨a, len, typeMMap⟩)                            -- :26-32
+  | .fresh a => (off, some ⟨a, r.toNat, typeMMap⟩)                        -- :26-32
   | .fail =>                                                              -- :33
-    match acquireFromHolder off min max len with
+    match acquireFromHolderI off min max r with
     | (o, .ok a l) => (o, some ⟨a, l, typeHolder⟩)                        -- :34-38
     | (o, .err) => (o, none)                                              -- :40
+
+/-- a requester on the `int` domain: a request refused by the argument check is finished before it starts -/
+def Th.freshI (r : Int) : Th := if guardFails r then ⟨.done, ulen r, 0, 0, some .err⟩ else Th.fresh (ulen r)
+
+def initI (off min max : Nat) (reqs : List Int) : St := ⟨off, min, max, reqs.map Th.freshI⟩
 
 /-- how `Write` (space.go:45) stores the bytes -/
 inductive WriteVia where
@@ -147,6 +161,23 @@ def writeOnce (typ : Nat) (p : Perm) : Option Perm :=
   | .copy => if p = .rwx then some .rwx else none
   | .writeTo => some .rx
   | .illegal => none
+
+/-- which bytes one `Write(s, data)` stores, as `(start, length)`; `none`: refused with an error before touching memory.
+    `regionLen = len(*s.Space)`, `dataLen = len(data)`.  TypeMMap: `copy(*s.Space, data)` stores `min` of the two
+    lengths (silently dropping the rest); TypeHolder: `memory.WriteTo(s.Addr, data)` stores ALL of `data`, whatever the
+    region length is.  The optional length guard at the head of Write is `Gen.StubHolder.writeRejects`. -/
+def writeFootprint (sp : Space) (dataLen : Nat) : Option (Nat × Nat) :=
+  if writeRejects dataLen sp.len then none else
+  match writeVia sp.typ with
+  | .copy => some (sp.addr, Nat.min dataLen sp.len)
+  | .writeTo => some (sp.addr, dataLen)
+  | .illegal => none
+
+/-- how many bytes of `data` are NOT stored although Write returned nil (the mapping path truncates silently) -/
+def writeDropped (sp : Space) (dataLen : Nat) : Nat :=
+  match writeFootprint sp dataLen with
+  | some (_, n) => dataLen - n
+  | none => 0
 
 /-- `n` successive writes to the same region -/
 def writeN (typ : Nat) (p : Perm) : Nat → Option Perm
@@ -188,12 +219,12 @@ def wrun (s : WSt) (σ : List Nat) : WSt := σ.foldl wstep s
 def winit (n : Nat) : WSt := ⟨none, .rx, false, List.replicate n .lock⟩
 
 /-- a sequential history of `Acquire` calls; each request carries the kernel's answer. Result: (requested, outcome) -/
-def runSeq (off min max : Nat) : List (Nat × Mmap) → List (Nat × Option Space)
+def runSeq (off min max : Nat) : List (Int × Mmap) → List (Int × Option Space)
   | [] => []
   | (len, mm) :: rest => (len, (acquire mm off min max len).2) :: runSeq (acquire mm off min max len).1 min max rest
 
 /-- final `off` of a sequential history -/
-def offSeq (off min max : Nat) : List (Nat × Mmap) → Nat
+def offSeq (off min max : Nat) : List (Int × Mmap) → Nat
   | [] => off
   | (len, mm) :: rest => offSeq (acquire mm off min max len).1 min max rest
 
@@ -205,10 +236,22 @@ def disj (c c' : Nat × Nat) : Prop := c.1 + c.2 ≤ c'.1 ∨ c'.1 + c'.2 ≤ c.
 instance (c c' : Nat × Nat) : Decidable (disj c c') := by unfold disj; exact inferInstance
 
 /-- the regions handed out from the reserve by a sequential history, in order -/
-def holderRegions : List (Nat × Option Space) → List (Nat × Nat)
+def holderRegions : List (Int × Option Space) → List (Nat × Nat)
   | [] => []
   | (_, some sp) :: rest => if sp.typ = typeHolder then (sp.addr, sp.len) :: holderRegions rest else holderRegions rest
   | (_, none) :: rest => holderRegions rest
+
+/-- every region handed out by a sequential history, mappings and reserve alike, in order -/
+def allRegions : List (Int × Option Space) → List (Nat × Nat)
+  | [] => []
+  | (_, some sp) :: rest => (sp.addr, sp.len) :: allRegions rest
+  | (_, none) :: rest => allRegions rest
+
+/-- the mappings the kernel granted during a sequential history (its answers, as regions) -/
+def kernelAnswers : List (Int × Mmap) → List (Nat × Nat)
+  | [] => []
+  | (r, .fresh a) :: rest => (a, r.toNat) :: kernelAnswers rest
+  | (_, .fail) :: rest => kernelAnswers rest
 
 /-! ### observed concurrent histories and the executable `admits` -/
 
